@@ -70,29 +70,32 @@ Proof.
 Qed.
 Print Assumptions C07_success_is_last_probe.
 
-(* backtracking and CG_DESCENT never report success on an invalid state, hence their success is always at the returned t *)
-Theorem C07_backtrack_cgdescent_state_valid : forall phi prm p0 a t0,
-  a = Backtrack \/ a = CGDescent ->
+(* all five: a success never carries an invalid state (after fix 0701278 lsearchk_t::get fails when the `*0.3` loop found
+   no valid trial point; before it More-Thuente/LeMarechal/Fletcher could accept the stale state of the previous trial),
+   hence every success is the evaluation AT the returned step *)
+Theorem C07_success_state_valid_at_step : forall phi prm p0 a t0,
   (0 < maxit prm)%Z ->
   let r := ls_get phi prm p0 a t0 in
   ok r = true ->
-  pv (cur (rs r)) = true /\ exists rest, trace (rs r) = rt r :: rest.
+  pv (cur (rs r)) = true /\ exists rest, trace (rs r) = rt r :: rest /\
+  cur (rs r) = phi (Z.of_nat (length rest)) (rt r).
 Proof.
-  intros phi prm p0 a t0 A M r H.
-  pose proof (ls_get_valid phi prm p0 a t0 A H) as V. fold r in V. split; [exact V|].
-  destruct (ls_get_ok phi prm p0 a t0 M H) as [[_ [_ Hs]] _]. exact (Hs V).
+  intros phi prm p0 a t0 M r H.
+  pose proof (ls_get_valid phi prm p0 a t0 H) as V. fold r in V. split; [exact V|].
+  destruct (ls_get_ok phi prm p0 a t0 M H) as [[[Hc Hw] [Hn Hs]] _]. fold r in Hc, Hw, Hn, Hs.
+  destruct (Hs V) as [rest E]. exists rest. split; [exact E|].
+  rewrite E in Hw. exact Hw.
 Qed.
-Print Assumptions C07_backtrack_cgdescent_state_valid.
+Print Assumptions C07_success_state_valid_at_step.
 
-(* LeMarechal / Fletcher / More-Thuente (and, vacuously, the other two): a success that carries an INVALID state happens
-   only in one situation -- the initial `*0.3` loop of lsearchk_t::get used up all max_iterations evaluations and every one
-   of them was invalid (allbad: reached from state0 by evaluations with invalid answers only) *)
-Theorem C07_invalid_success_only_after_exhausted_shrink : forall phi prm p0 a t0,
-  let r := ls_get phi prm p0 a t0 in
-  ok r = true -> pv (cur (rs r)) = false ->
-  allbad phi p0 (rs r) /\ length (trace (rs r)) = Z.to_nat (maxit prm).
-Proof. intros phi prm p0 a t0 r H V. exact (ls_get_stale phi prm p0 a t0 H V). Qed.
-Print Assumptions C07_invalid_success_only_after_exhausted_shrink.
+(* the guard added by the fix is what excludes it: do_get entered alone with the stale invalid state of the `*0.3` loop
+   (as the code did before 0701278) reports success on a state evaluated at another step *)
+Theorem C07_do_get_alone_accepts_invalid_state :
+  let r := do_get phi_stale (prm_default 2) p0_slope Lemarechal stale_entry t_009 in
+  ok r = true /\ pv (cur (rs r)) = false /\ trace (rs r) = [t_03; fone] /\
+  PrimFloat.eqb (rt r) t_03 = false.
+Proof. exact s_do_get_alone_accepts_invalid_state. Qed.
+Print Assumptions C07_do_get_alone_accepts_invalid_state.
 
 (* "up to rounding": over the reals (Flocq; R_of = the real value of a finite double, rnd = rounding to nearest-even in
    binary64) the accepted boolean tests are the textbook inequalities with each operation of the right-hand side rounded
@@ -120,14 +123,6 @@ Print Assumptions C07_real_meaning_wolfe.
 Theorem C07_step_positive_refuted : ~ C07_step_positive_full_statement.
 Proof. exact s_step_positive_refuted. Qed.
 Print Assumptions C07_step_positive_refuted.
-
-(* "success => the state is the evaluation at the returned t" without the validity guard: when the `*0.3` loop uses up
-   max_iterations on invalid trial points the searches start from the stale, invalid state of the previous trial and
-   LeMarechal / Fletcher / More-Thuente may accept it (phi_stale, max_iterations = 2: returns t = 0.09 with the state
-   evaluated at 0.3) *)
-Theorem C07_state_at_step_refuted : ~ C07_state_at_step_full_statement.
-Proof. exact s_state_at_step_refuted. Qed.
-Print Assumptions C07_state_at_step_refuted.
 
 (* ---------- non-vacuity: phi(t) = (t-1)^2, i.e. f0 = 1, dg0 = -2: every search succeeds; refusals exist ---------- *)
 Example C07_nonvacuous_success :
